@@ -421,7 +421,9 @@ def shot_noise(img, method='poisson', seed=None):
         # REF: https://stackoverflow.com/a/33701974
         with np.errstate(divide='raise'):
             try:
-                img = np.asarray(rng.normal(loc=img, scale=np.sqrt(img)), dtype=int)
+                # rounded to the nearest whole count (truncating the draw
+                # leaves the mean half a count below the signal)
+                img = np.rint(rng.normal(loc=img, scale=np.sqrt(img)))
             except FloatingPointError:
                 raise ValueError('Counts must be positive')
 
